@@ -18,6 +18,7 @@ if [ -z "$entries" ]; then entries=$(awk '!/^#/ && NF {print $1}' /verif/seeded/
 pass=0; fail=0
 for e in $entries; do
   checks=$(awk -v e=$e '$1==e {for(i=2;i<=NF;i++) printf "%s ", $i}' /verif/seeded/expected.txt)
+  [ -n "${ONLY_CHECK:-}" ] && checks="$ONLY_CHECK"
   git -C $S/repo checkout -q -- . ; git -C $S/repo clean -fdq
   case $e in
     fix-*) c=${e#fix-}; if ! git -C $S/repo revert --no-commit $c >/dev/null 2>&1; then git -C $S/repo revert --abort >/dev/null 2>&1; git -C $S/repo reset -q --hard HEAD; echo "entry=$e SKIP (reverse patch conflicts with later commits)"; continue; fi;;
